@@ -263,8 +263,8 @@ Print Assumptions C14_gov_block_nonvacuous.
 (* expedited proposals: a failed one is converted by the end blocker, stays open past its first end time, and keeps
    blocking its participants until the regular period is over *)
 Theorem C14_gov_expedited_nonvacuous :
-  let s1 := run unit sig_any ex_init [OSubmit unit 1 600 true 100 500; OEndBlock unit 200 205 [] [1]] in
-  let s2 := run unit sig_any ex_init [OSubmit unit 1 600 true 100 500; OEndBlock unit 200 205 [] [1]; OEndBlock unit 1100 1105 [] []] in
+  let s1 := run unit sig_any ex_init [OSubmit unit 1 600 true 100 500; OEndBlock unit 200 205 [] [1] no_vside] in
+  let s2 := run unit sig_any ex_init [OSubmit unit 1 600 true 100 500; OEndBlock unit 200 205 [] [1] no_vside; OEndBlock unit 1100 1105 [] [] no_vside] in
   govwfb s1 = true /\ involved_open s1 1 /\ activeq (gov s1) = [(1010, 1)] /\
   migrate_tx unit sig_any s1 1 5 (Some tt) = Err EGov /\
   (exists s', migrate_tx unit sig_any s2 1 5 (Some tt) = Ok s').
